@@ -139,6 +139,9 @@ class Scheduler:
         self.line_codes: set = set()
         self.event_codes: dict = {}      # code object -> [(event name, "call" | "return", extract(frame, retval) -> dict | None)]
         self.events: list = []
+        self.lag_codes: set = set()      # code objects whose line boundaries may deschedule the thread for line_lag_dt
+        self.line_lag_p = 0.0
+        self.line_lag_dt = 0.0
         self.put_hook = None             # callable(queue, item) invoked when a Queue.put took effect
         self.op_hook = None              # callable(kind, obj, value): "set" / "clear" / "wait" (returned True) on Events, "get" / "qsize" on Queues
         self.choices: list[int] = []
@@ -451,13 +454,18 @@ class Scheduler:
     def _line_tracer(self, frame, event, arg):
         if event == "line" and not self.dead:
             if self.cur is not None and self.cur.os_thread is _rt.current_thread():
-                self.yield_point("line")
+                if frame.f_code in self.lag_codes and self.lag_rng.random() < self.line_lag_p:
+                    # the thread is descheduled between two statements for a while: everything else that can happen at this
+                    # instant happens first
+                    self.block(("linelag",), self.line_lag_dt)
+                else:
+                    self.yield_point("line")
         return self._line_tracer
 
 
 def run(main, *, seed=0, policy="fifo", switch_prob=0.2, script=None, max_vtime=100000.0,
         max_steps=5_000_000, line_funcs=(), wall_timeout=120.0, randint=None, line_cost=1e-4,
-        pct_depth=2, pct_horizon=150, wake_lag=None, event_funcs=()):
+        pct_depth=2, pct_horizon=150, wake_lag=None, event_funcs=(), line_lag=None):
     """Run `main(sched)` as the main simulated thread; returns the Scheduler (see .outcome).
 
     event_funcs: [(function, event name, "call" | "return", extract)]: an event is appended to sched.events when the function
@@ -475,6 +483,14 @@ def run(main, *, seed=0, policy="fifo", switch_prob=0.2, script=None, max_vtime=
         if code is None:
             raise SimError(f"no code object for {f!r}")
         sched.line_codes.add(code)
+    if line_lag is not None:
+        funcs, sched.line_lag_p, sched.line_lag_dt = line_lag
+        for f in funcs:
+            code = getattr(f, "__code__", None) or getattr(getattr(f, "__func__", None), "__code__", None)
+            if code is None:
+                raise SimError(f"no code object for {f!r}")
+            sched.lag_codes.add(code)
+            sched.line_codes.add(code)
     for f, name, on, extract in event_funcs:
         code = getattr(f, "__code__", None) or getattr(getattr(f, "__func__", None), "__code__", None)
         if code is None:
